@@ -102,6 +102,7 @@ func recoverFile(info types.SegmentInfo, wf types.WritableFile, bufPool *sync.Po
 func (w *Writer) initEmpty() error {
 	// Write header into write buffer to be written out with the first commit.
 	w.writer.writeOffset = 0
+	w.writer.indexStart = 0
 	w.ensureBufCap(fileHeaderLen)
 	w.writer.commitBuf = w.writer.commitBuf[:fileHeaderLen]
 
@@ -124,8 +125,20 @@ func (w *Writer) recoverTail() error {
 		offset     int64
 		crcStart   int64
 		offsetsLen int
+		// indexStart is non-zero if an index frame was written as part of the
+		// batch this commit frame ends, i.e. this commit sealed the segment.
+		indexStart uint64
 	}
 	var prevCommit, finalCommit *commitInfo
+
+	// pendingIndexStart tracks an index frame seen since the last commit frame.
+	// It only means the segment is sealed if the commit that follows it turns
+	// out to be the one we recover to. An index frame that was never committed
+	// (torn seal) or bytes that only look like one (stale data left behind a
+	// rewound write offset by an earlier torn write) must not leave the writer
+	// sealed.
+	var pendingIndexStart uint64
+	w.writer.indexStart = 0
 
 	offsets := make([]uint32, 0, 32*1024)
 
@@ -139,7 +152,7 @@ func (w *Writer) recoverTail() error {
 			// So this segment was sealed! (or attempted) keep track of this
 			// indexStart in case it turns out the Seal actually committed completely.
 			// We store the start of the actual array not the frame header.
-			w.writer.indexStart = uint64(offset) + frameHeaderLen
+			pendingIndexStart = uint64(offset) + frameHeaderLen
 
 		case FrameCommit:
 			// The payload is not the length field in this case!
@@ -149,7 +162,9 @@ func (w *Writer) recoverTail() error {
 				offset:     offset,
 				crcStart:   0,            // First commit includes the file header
 				offsetsLen: len(offsets), // Track how many entries were found up to this commit point.
+				indexStart: pendingIndexStart,
 			}
+			pendingIndexStart = 0
 			if prevCommit != nil {
 				finalCommit.crcStart = prevCommit.offset + frameHeaderLen
 			}
@@ -169,6 +184,7 @@ func (w *Writer) recoverTail() error {
 
 	// Assume that the final commit is good for now and set the writer state
 	w.writer.writeOffset = uint32(finalCommit.offset + frameHeaderLen)
+	w.writer.indexStart = finalCommit.indexStart
 
 	// Just store what we have for now to ensure the defer doesn't panic we'll
 	// probably update this below.
@@ -229,6 +245,7 @@ func (w *Writer) recoverTail() error {
 	}
 
 	w.writer.writeOffset = uint32(prevCommit.offset + frameHeaderLen)
+	w.writer.indexStart = prevCommit.indexStart
 	offsets = offsets[:prevCommit.offsetsLen]
 	w.offsets.Store(offsets)
 
